@@ -3,6 +3,9 @@ from common import hx
 
 TEST_NAMES = [b"TestA", b"TestAB", b"TestA/sub", b"TestA/sub#01", b"TestA/sub/deep", b"TestB",
               b"TestB/x_y", b"TestZeta", b"TestA1", b"TestA10", b"Test\xce\xa9mega", b"TestB/[k]"]
+# names with a `%` (t.Run("50% off") gives .../50%_off): multi-entry APIs only - in standalone file names `%` is finding K8
+PCT_NAMES = [b"TestPct/50%_off", b"TestFmt/%s_%d", b"TestEsc/%20_%2F"]
+MULTI_NAMES = TEST_NAMES + PCT_NAMES
 NONTEST_NAMES = [b"FuzzThing/seed#0", b"BenchmarkX", b"ExampleY"]
 
 LINE_ALPHABET = [b"---", b"/-/-/-/", b"----", b"--- ", b" ---", b"", b" ", b"\t", b"a", b"b", b"hello world",
@@ -18,8 +21,11 @@ def gen_line(rng, headers=(), allow_header=False, allow_cr_end=False):
         return rng.choice(list(headers))
     if allow_cr_end and r < 10:
         return rng.choice(LINE_ALPHABET) + b"\r"
-    if r < 70:
+    if r < 67:
         return rng.choice(LINE_ALPHABET)
+    if r < 70:
+        # runs of adjacent terminator / token lines (an empty YAML document, a separator block)
+        return b"\n".join(rng.choice([b"---", b"---", b"/-/-/-/"]) for _ in range(rng.range(2, 4)))
     n = rng.range(1, 12)
     return bytes(rng.choice([97, 98, 99, 32, 45, 47, 91, 93, 0xc3, 0xa9, 0xff, 49, 9]) for _ in range(n))
 
